@@ -14,9 +14,11 @@ A *model* is a plain JSON-able dict (so it can be stored in a replay file / corp
      "extra_fields": [[cls, name, type], ...],       # pool entries nobody defines: index gaps
      "extra_methods": [[cls, name, ret, [params]], ...],
      "extra_strings": [...],
-     "build": {"leb_pad": 0..2, "shared_handlers": bool, "version": "035", "map_order": None | [types]}}
+     "build": {"leb_pad": 0..2, "shared_handlers": bool, "version": "035".."041", "map_order": None | [types],
+               "extra_map": [[type, size, offset | "map", position (-1 = last)], ...]}}   # extra map entries,
+                                                            # e.g. of a type code no format version assigns
 
-  code = {"regs": int, "ins": int, "outs": int, "insns": hex, "tries": [[start, count, [[type, addr], ...],
+  code = {"regs": int, "ins": int, "outs": int, "insns": hex (opaque: may hold undecodable units), "tries": [[start, count, [[type, addr], ...],
           catch_all | None], ...], "debug": None | [line_start, [param names | None]]}
   init = [value_type, value]   (only int-like / string / null values)
 
@@ -50,6 +52,10 @@ EXTERNAL = ["Ljava/lang/Object;", "Ljava/lang/String;", "Ljava/util/List;", "Lja
             "Ljava/io/Serializable;", "Ljava/lang/Exception;"]
 FIELD_FLAGS = [0x0, 0x1, 0x2, 0x4, 0x10, 0x12, 0x40, 0x80, 0x1000, 0x4000, 0x1011]
 METHOD_FLAGS = [0x1, 0x2, 0x4, 0x11, 0x20, 0x40, 0x80, 0x1000, 0x1001, 0x20001]
+# junk after the reachable code: unused opcodes, an instruction cut off by the end of the code,
+# payloads that claim more data than there is
+UNDECODABLE = ["3e00", "4100", "7300", "7a00", "3e0000000000", "7900", "1400", "1801", "2400", "6e10",
+               "000164000000", "00020a00", "00030400ffff0000"]
 SIMPLE_INSNS = ["0e00", "12000f00", "1200110000", "0000", "00000e00", "12011210900201000f00",
                 "1a000000", "22000000", "6e1000000000", "0d002700"]
 
@@ -94,8 +100,18 @@ def _flags(rng, base, force=0):
 def _code(rng, params, static, classes):
     ins_words = sum(2 if p in ("J", "D") else 1 for p in params) + (0 if static else 1)
     regs = ins_words + rng.randrange(0, 6)
-    if rng.random() < 0.25:
+    r = rng.random()
+    if r < 0.2:
         insns = bytes(rng.randrange(256) for _ in range(2 * rng.randrange(1, 12))).hex()
+    elif r < 0.4:
+        # decodable prefix, then a code unit no disassembler accepts (code is opaque to the class
+        # model: the file still declares exactly these bytes), at the end or in the middle
+        insns = "".join(rng.choice(SIMPLE_INSNS) for _ in range(rng.randrange(1, 3)))
+        if len(insns) % 4:
+            insns += "00"
+        insns += rng.choice(UNDECODABLE)
+        if rng.random() < 0.4:
+            insns += rng.choice(["0e00", "00000000", "0000"])
     else:
         insns = "".join(rng.choice(SIMPLE_INSNS) for _ in range(rng.randrange(1, 5)))
         if len(insns) % 4:
@@ -220,7 +236,7 @@ def gen_model(rng, max_classes=4, adversarial=None):
         extra_methods.append([rng.choice(EXTERNAL), rng.choice(SIMPLE), "V", []])
         extra_fields.append([rng.choice(EXTERNAL), rng.choice(SIMPLE), rng.choice(PRIMS)])
     build = {"leb_pad": rng.choice([0, 0, 0, 1, 2]), "shared_handlers": rng.random() < 0.5,
-             "version": rng.choice(["035", "035", "037", "038", "039"]), "map_order": None}
+             "version": rng.choice(["035", "035", "037", "038", "039", "040", "041"]), "map_order": None}
     return {"classes": classes, "extra_fields": extra_fields, "extra_methods": extra_methods,
             "extra_strings": [rng.choice(SIMPLE + ["", "\x00", "\ud800", "a b"]) for _ in range(rng.choice([0, 0, 2]))],
             "build": build}
@@ -268,6 +284,15 @@ def build(model, **kw):
             annotations=ann)
     opts = dict(model.get("build", {}))
     opts.update(kw)
+    em = opts.pop("extra_map", None)
+    if em:
+        def order(es, em=em):
+            es = list(es)
+            for t, size, off, pos in em:
+                o = next(e[2] for e in es if e[0] == A.TYPE_MAP_LIST) if off == "map" else off
+                es.insert(len(es) if pos < 0 else min(pos, len(es)), (t, size, o))
+            return es
+        opts["map_order"] = order
     ver = opts.pop("version", "035")
     opts["version"] = ver.encode() if isinstance(ver, str) else ver
     data = b.build(**opts)
@@ -406,6 +431,9 @@ def permute_map(data, order):
     b = bytearray(data)
     b[off + 4: off + 4 + 12 * n] = b"".join(ents[i] for i in order)
     return A.fix_checksum(bytes(b))
+
+
+UNASSIGNED_MAP_TYPES = [0x2007, 0x0009, 0x1004, 0x3000, 0xFFFF, 0x00FF]
 
 
 WITNESS_KEY_COLLISION = {
